@@ -864,12 +864,26 @@ Proof.
   cbn [notify_of] in HH. now rewrite HH in E.
 Qed.
 
+(* without a connector nothing is ever put below a node: compile_str cannot refuse *)
+Lemma no_series_compiles t : has_series t = false -> forall n, create_graphs (handle_tree t n) [] <> None.
+Proof.
+  induction t as [w| |w| |a IHa c b IHb|a IHa b IHb]; intros H n; cbn in *; try discriminate.
+  apply orb_false_elim in H. destruct H as [Ha Hb]. specialize (IHa Ha n). specialize (IHb Hb n).
+  destruct (create_graphs (handle_tree a n) []); [|contradiction].
+  destruct (create_graphs (handle_tree b n) []); [discriminate|contradiction].
+Qed.
+Lemma compile_error_series t : compile_tree t = CompileError -> has_series t = true.
+Proof.
+  unfold compile_tree. intros H. destruct (has_series t) eqn:E; [reflexivity|].
+  pose proof (no_series_compiles t E true) as Hn. destruct (create_graphs (handle_tree t true) []); [discriminate|contradiction].
+Qed.
+
 Lemma compile_tree_not_rejected t : compile_tree t <> Rejected /\ compile_tree t <> Crashed.
 Proof. unfold compile_tree. destruct (create_graphs _ _); split; discriminate. Qed.
 
 (* The law evaluated on the model's own outcome can only raise the two listed findings:
    code 1 (documented text with a bracketed "*" rejected, F10) and code 3 (a repeated path refused, F17). *)
-Lemma model_law s c : In c (law_single s (compile_str s)) -> c = 1%Z \/ c = 3%Z.
+Lemma model_law s c : In c (law_single s (compile_str s)) -> c = 1%Z \/ c = 3%Z \/ c = 19%Z.
 Proof.
   unfold law_single. destruct (doc_parse s) as [[ts t]|] eqn:Ed.
   - apply doc_parse_iff in Ed. destruct Ed as [Hl HD].
@@ -879,7 +893,8 @@ Proof.
       { apply parse_toks_gen_sound in Ep. apply lark_subset_doc in Ep. eapply derivation_unique; eauto. }
       destruct (compile_tree t) as [| |gs|] eqn:Ec.
       * now destruct (compile_tree_not_rejected t).
-      * rewrite (compile_error_dup _ Ec). intros [<-|[]]. now right.
+      * rewrite (compile_error_dup _ Ec), (compile_error_series _ Ec).
+        destruct (dup_right t); intros [<-|[]]; auto.
       * rewrite (meaning_lemma _ _ Ec), path_set_eqb_refl. intros [].
       * now destruct (compile_tree_not_rejected t).
     + destruct (star_in_brackets 0 ts) eqn:Es; [intros [<-|[]]; now left|].
@@ -902,11 +917,11 @@ Proof.
   unfold law_single in E. destruct (doc_parse s) as [[ts t]|] eqn:Ed.
   - pose proof (proj1 (doc_parse_iff _ _ _) Ed) as [Hl _]. specialize (Hs _ Hl).
     destruct (compile_str s) as [| |gs|] eqn:Eo.
-    + rewrite Hs in E. inversion E; subst. destruct Hc13; discriminate.
+    + rewrite Hs in E. inversion E; subst. destruct Hc13 as [?|[?|?]]; discriminate.
     + now apply Hc.
-    + destruct (path_set_eqb _ _); inversion E; subst. destruct Hc13; discriminate.
-    + inversion E; subst. destruct Hc13; discriminate.
-  - destruct (compile_str s); cbn in E; inversion E; subst; destruct Hc13; discriminate.
+    + destruct (path_set_eqb _ _); inversion E; subst. destruct Hc13 as [?|[?|?]]; discriminate.
+    + inversion E; subst. destruct Hc13 as [?|[?|?]]; discriminate.
+  - destruct (compile_str s); cbn in E; inversion E; subst; destruct Hc13 as [?|[?|?]]; discriminate.
 Qed.
 
 (* Python-equal results denote the same paths (clause 12 of the pair law on the model) *)
@@ -1095,11 +1110,11 @@ Proof.
 Qed.
 
 Lemma expr_law e : forall c,
-  In c (law_expr e (match create_graphs e [] with Some gs => Graphs gs | None => CompileError end)) -> c = 3%Z.
+  In c (law_expr e (match create_graphs e [] with Some gs => Graphs gs | None => CompileError end)) -> c = 3%Z \/ c = 19%Z.
 Proof.
   intros c. unfold law_expr. destruct (create_graphs e []) as [gs|] eqn:E.
   - rewrite (proj1 (expr_meaning e) _ E), path_set_eqb_refl. intros [].
-  - rewrite (proj2 (expr_meaning e) E). intros [<-|[]]. reflexivity.
+  - rewrite (proj2 (expr_meaning e) E). destruct (dup_right_e e); intros [<-|[]]; auto.
 Qed.
 
 Lemma graphs_eqb_sym g1 : forall g2, list_eqb graph_eqb g1 g2 = list_eqb graph_eqb g2 g1.
